@@ -375,3 +375,85 @@ pub async fn verif_session_step(
     }
     obs
 }
+
+/// One Spawn / Terminate / PgJoin / PgLeave control message handled by the real `handle_control` of an authenticated session whose proxy table already
+/// holds proxies for the pids in `have` (and, with `enrolled`, those proxies are members of the group). Returns
+/// "table=<pid:new|old,..>;stopped=<pids of earlier proxies no longer running>;members=<pids of proxies in the group>;children=<n>"
+pub async fn verif_mirror(have: &[u64], enrolled: bool, kind: &str, list: &[u64]) -> String {
+    let log = Arc::new(Mutex::new(Vec::new()));
+    let (server, _sh) = Actor::spawn(None, VerifNodeServer { reply: "NoOtherConnection".to_string(), log: log.clone() }, ()).await.unwrap();
+    let frames = Arc::new(Mutex::new(Vec::new()));
+    let (session_actor, _h) = Actor::spawn(None, VerifSessionActor { frames: frames.clone() }, ()).await.unwrap();
+    let sent = Arc::new(AtomicU32::new(0));
+    let (tcp, _th) = Actor::spawn(None, VerifTcp { sent: sent.clone() }, ()).await.unwrap();
+    let session = NodeSession {
+        cookie: "cookie".to_string(),
+        is_server: true,
+        node_id: 1,
+        this_node_name: auth_protocol::NameMessage { name: "verif-myself".to_string(), flags: Some(auth_protocol::NodeFlags { version: 1 }), connection_string: "verif-myself:1".to_string(), connection_id: 0 },
+        node_server: server.get_cell().into(),
+        connection_mode: NodeConnectionMode::Isolated,
+        max_inbound_frame_size: crate::DEFAULT_MAX_INBOUND_FRAME_SIZE,
+        connection_id: 0,
+    };
+    let mut state = NodeSessionState {
+        auth: verif_auth_state("AsServer(Ok)", 0, 0, [0; 32], [0; 32]),
+        ready: ReadyState::Open,
+        local_addr: SocketAddr::new(std::net::IpAddr::V4(std::net::Ipv4Addr::LOCALHOST), 0),
+        peer_addr: SocketAddr::new(std::net::IpAddr::V4(std::net::Ipv4Addr::LOCALHOST), 0),
+        name: None,
+        connection_id: 0,
+        remote_actors: HashMap::new(),
+        advertised_local_pids: HashSet::new(),
+        tcp: Some(tcp.clone()),
+        ping_task: None,
+        epoch: Instant::now(),
+        pong_warnings: PongWarnings::default(),
+    };
+    let myself: ActorRef<crate::node::NodeSessionMessage> = session_actor.get_cell().into();
+    let scope = format!("{}-{}", VERIF_SCOPE, std::process::id());
+    let mut before: Vec<(u64, ActorRef<RemoteActorMessage>)> = Vec::new();
+    for pid in have {
+        let a = session.get_or_spawn_remote_actor(&myself, None, *pid, &mut state).await.unwrap();
+        if enrolled {
+            ractor::pg::join_scoped(scope.clone(), VERIF_GROUP.to_string(), vec![a.get_cell()]);
+        }
+        before.push((*pid, a));
+    }
+    use control_protocol::control_message::Msg;
+    let actors: Vec<control_protocol::Actor> = list.iter().map(|p| control_protocol::Actor { pid: *p, name: None }).collect();
+    let msg = match kind {
+        "Spawn" => Msg::Spawn(control_protocol::Spawn { actors }),
+        "Terminate" => Msg::Terminate(control_protocol::Terminate { ids: list.to_vec() }),
+        "PgJoin" => Msg::PgJoin(control_protocol::PgJoin { group: VERIF_GROUP.to_string(), actors, scope: scope.clone() }),
+        "PgLeave" => Msg::PgLeave(control_protocol::PgLeave { group: VERIF_GROUP.to_string(), actors, scope: scope.clone() }),
+        other => panic!("unknown control kind {other}"),
+    };
+    let _ = session.handle_control(&mut state, control_protocol::ControlMessage { msg: Some(msg) }, myself.clone()).await;
+    ractor::concurrency::sleep(Duration::from_millis(40)).await;
+    let mut table: Vec<String> = state
+        .remote_actors
+        .iter()
+        .map(|(pid, a)| format!("{}:{}", pid, if before.iter().any(|(p, b)| p == pid && b.get_id() == a.get_id()) { "old" } else { "new" }))
+        .collect();
+    table.sort();
+    let stopped: Vec<String> = before.iter().filter(|(_, a)| !matches!(a.get_status(), ractor::ActorStatus::Running | ractor::ActorStatus::Upgrading)).map(|(p, _)| p.to_string()).collect();
+    let members = ractor::pg::get_scoped_members(&scope, &VERIF_GROUP.to_string());
+    let mut mp: Vec<String> = Vec::new();
+    for m in members {
+        let pid = state.remote_actors.iter().find(|(_, a)| a.get_id() == m.get_id()).map(|(p, _)| p.to_string()).or_else(|| before.iter().find(|(_, a)| a.get_id() == m.get_id()).map(|(p, _)| format!("{}!gone", p)));
+        mp.push(pid.unwrap_or_else(|| "?".to_string()));
+    }
+    mp.sort();
+    let out = format!("table={};stopped={};members={};children={}", table.join(","), stopped.join(","), mp.join(","), session_actor.get_children().len());
+    for (_, ra) in state.remote_actors.drain() {
+        ra.stop(None);
+    }
+    for (_, a) in before {
+        a.stop(None);
+    }
+    tcp.stop(None);
+    session_actor.stop(None);
+    server.stop(None);
+    out
+}
